@@ -113,7 +113,7 @@ theorem gLoc_wLoc (nl : WLoc × Nat) (h : (nl.1.urgent && nl.1.committed) = fals
 
 structure EdgeOk (c : WCfg) (e : WEdge) : Prop where
   prob : c.prob = true ∨ nontrivial e.prob = none
-  sel : e.select = [] ∨ ∃ s, e.select = [s] ∧ s.named = true
+  sel : c.sel = true ∨ e.select = [] ∨ ∃ s, e.select = [s] ∧ s.named = true
   ctrl : c.ctrl = true ∨ e.ctrl = true
   ends : ∃ s d, wEnd c e.src = some s ∧ wEnd c e.dst = some d
 
@@ -128,17 +128,21 @@ theorem edgeOk_of (c : WCfg) (e : WEdge) (h : edgeShapes c e = []) : EdgeOk c e 
       cases hp : nontrivial e.prob with
       | none => rfl
       | some s => simp [hc, hp] at h1
-  · cases hs : e.select with
-    | nil => exact Or.inl rfl
-    | cons s r =>
+  · cases hsel : c.sel with
+    | true => exact Or.inl rfl
+    | false =>
       right
-      cases r with
-      | nil =>
-        refine ⟨s, rfl, ?_⟩
-        cases hn : s.named with
-        | true => rfl
-        | false => simp [hs, hn, selShapes] at h3
-      | cons s2 r2 => simp [hs] at h2
+      cases hs : e.select with
+      | nil => exact Or.inl rfl
+      | cons s r =>
+        right
+        cases r with
+        | nil =>
+          refine ⟨s, rfl, ?_⟩
+          cases hn : s.named with
+          | true => rfl
+          | false => simp [hs, hn, hsel, selShapes] at h3
+        | cons s2 r2 => simp [hs, hsel] at h2
   · cases hc : c.ctrl with
     | true => exact Or.inl rfl
     | false =>
@@ -178,9 +182,10 @@ theorem gEdge_wEdge (c : WCfg) (e : WEdge) (h : EdgeOk c e) :
       · simp [hc, filterMap_wOptLabel]
       · cases hc : c.prob <;> simp [filterMap_wOptLabel, optLabel, hn]
     simp only [wEdgeLabels, filterMap_lblF_append, filterMap_wOptLabel, hp]
-    rcases h.sel with hsel | ⟨x, hsel, hnamed⟩
-    · simp [hsel]
-    · simp [hsel, hnamed, lblF, contentOf, txtStr, List.lookup, selectsText]
+    rcases h.sel with hc | hsel | ⟨x, hsel, hnamed⟩
+    · cases he : e.select.isEmpty <;> simp [hc, he, lblF, contentOf, txtStr, List.lookup]
+    · cases hc : c.sel <;> simp [hsel, hc]
+    · cases hc : c.sel <;> simp [hsel, hnamed, hc, lblF, contentOf, txtStr, List.lookup, selectsText]
   have hctrl : ctrlOfAttrs (wEdgeAttrs c e) = e.ctrl := by
     rcases h.ctrl with hc | he
     · cases he : e.ctrl <;> simp [ctrlOfAttrs, wEdgeAttrs, hc, he, List.lookup]
@@ -298,20 +303,26 @@ theorem allSome_eq_none_iff {α} (l : List (Option α)) : allSome l = none ↔ n
 theorem mem_ite_singleton {α} (c : Prop) [Decidable c] (a b : α) : a ∈ (if c then [b] else []) ↔ c ∧ a = b := by
   by_cases h : c <;> simp [h]
 
-theorem selShapes_only (select : List WSel) (x : Shape) (hx : x ≠ Shape.selectTypeDropped) : x ∉ selShapes select := by
+theorem selShapes_only0 (select : List WSel) (x : Shape) (hx : x ≠ Shape.selectTypeDropped) : x ∉ selShapes select := by
   cases select with
   | nil => simp [selShapes]
   | cons s r => cases hn : s.named <;> simp [selShapes, hn, hx]
 
+theorem selShapes_only (b : Bool) (select : List WSel) (x : Shape) (hx : x ≠ Shape.selectTypeDropped) :
+    x ∉ (if b then [] else selShapes select) := by
+  cases b
+  · simpa using selShapes_only0 select x hx
+  · simp
+
 theorem bp_mem_edgeShapes (c : WCfg) (e : WEdge) : Shape.branchpointEndpoint ∈ edgeShapes c e ↔ wEdge c e = none := by
   obtain ⟨src, dst, ctrl, select, guard, sync, assign, prob⟩ := e
-  have h1 := selShapes_only select Shape.branchpointEndpoint (by decide)
+  have h1 := selShapes_only c.sel select Shape.branchpointEndpoint (by decide)
   simp only [edgeShapes, List.mem_append, mem_ite_singleton, h1, or_false]
   cases hs : wEnd c src <;> cases hd : wEnd c dst <;> simp [wEdge, hs, hd]
 
 theorem noInit_not_mem_edgeShapes (c : WCfg) (e : WEdge) : Shape.noInit ∉ edgeShapes c e := by
   obtain ⟨src, dst, ctrl, select, guard, sync, assign, prob⟩ := e
-  have h1 := selShapes_only select Shape.noInit (by decide)
+  have h1 := selShapes_only c.sel select Shape.noInit (by decide)
   simp only [edgeShapes, List.mem_append, mem_ite_singleton, h1, or_false]
   cases hs : wEnd c src <;> cases hd : wEnd c dst <;> simp [hs, hd]
 
@@ -343,7 +354,7 @@ theorem unbound_not_mem_templShapes (c : WCfg) (t : WTempl) : Shape.unboundProce
   refine ⟨⟨?_, by simp⟩, by simp⟩
   intro e _
   obtain ⟨src, dst, ctrl, select, guard, sync, assign, prob⟩ := e
-  have h1 := selShapes_only select Shape.unboundProcess (by decide)
+  have h1 := selShapes_only c.sel select Shape.unboundProcess (by decide)
   simp only [edgeShapes, List.mem_append, mem_ite_singleton, h1, or_false]
   cases hs : wEnd c src <;> cases hd : wEnd c dst <;> simp [hs, hd]
 
